@@ -70,7 +70,7 @@ func (r *Reflog) load(rootGoitPath string, head *Head, refs *Refs) error {
 			record.Hash = hash
 
 			// references
-			if head.Commit.Hash.Compare(hash) {
+			if head.Commit != nil && head.Commit.Hash.Compare(hash) {
 				record.Head = color.GreenString(head.Reference)
 			}
 			branches := refs.getBranchesByHash(hash)
